@@ -47,6 +47,13 @@ def run(ctx):
     for p, e, bit, what in gen_prog.long_work_programs(r):
         for ncm in (0, FLAG["NEW_COST_MODEL"]):
             base.append((p, e, bit | ncm))
+    # directed: costs at the top of the u64 range (a softfork with an unknown extension is skipped at its declared
+    # cost): budget 0 must behave like 2^64-1 there too, and budgets just below such a cost must fail
+    for declared in (2 ** 63 - 1, 2 ** 63, 2 ** 63 + 1, 2 ** 64 - 1000, 2 ** 64 - 1):
+        for ext in (2, 5):
+            g = gen.tt(gen_prog.guard(gen_prog.q(gen_prog.i2a(1)), b"", declared, ext))
+            for f in (0, FLAG["NEW_COST_MODEL"]):
+                base.append((g, gen.tt(b""), f))
     for p, e, tag in pool:
         if tag.startswith("guard[f="):
             f = int(tag.split("=")[1].split()[0])
